@@ -1,0 +1,24 @@
+//go:build verif
+
+// Contracts for package headerdate (Date header middleware), checked by /verif/govc. Comment-only: no code.
+package headerdate
+
+// The configured header name (Date by default) and location (UTC by default); an unknown location is an error.
+//@ func NewMiddleware
+//@ props C09 C17
+//@ ensures [unknown-location-is-an-error] imp(cfg.Location != "" && result_of(time.LoadLocation, 1) != nil, result1 == result_of(time.LoadLocation, 1) && result0 == nil)
+//@ ensures [defaults] imp(result1 == nil, result0 != nil && result0.header == ite(cfg.HeaderName != "", cfg.HeaderName, "Date") && imp(cfg.Location == "", result0.location == time.UTC) && imp(cfg.Location != "", result0.location == result_of(time.LoadLocation, 0)))
+//@ at call time.LoadLocation assert arg(name) == cfg.Location
+
+// The header is added to what the ammo already has: nothing is replaced or removed.
+//@ func (m *Middleware) UpdateRequest
+//@ props C09
+//@ nilsafe
+//@ requires req != nil && req.Header != nil
+//@ at call req.Header.Add assert [the-configured-header] arg(a0) == m.header
+//@ ensures result == nil && calls(req.Header.Add) == 1
+
+//@ func (m *Middleware) InitMiddleware
+//@ props C09
+//@ modifies nothing
+//@ ensures result == nil
